@@ -185,6 +185,25 @@ pub fn c10(tier: Tier) -> i32 {
     }
     let (total, acc) = crate::universe::sweep_list(&cases, &f);
     rep.absorb("U-char", "every code point U+0000..U+07FF and a stride through the higher planes (plus edges), alone and next to a letter / quote / backslash", total, true, t0, acc);
+    // long runs of one quote character: the writer counts run lengths in narrow integers, the thresholds that matter
+    // (1, 2, 3 quotes in a row) reappear wherever such a counter wraps
+    let t0 = std::time::Instant::now();
+    let mut cases: Vec<String> = Vec::new();
+    for q in ["\"", "'"] {
+        for n in (1usize..=9).chain(125..=131).chain(252..=260).chain(509..=516).chain(767..=770).chain([1023, 1024, 1025, 65535, 65536, 65537, 65538]) {
+            let run = q.repeat(n);
+            cases.push(run.clone());
+            cases.push(format!("a{}", run));
+            cases.push(format!("{}a", run));
+            cases.push(format!("\\{}", run));
+            cases.push(format!("C:\\x\\{}", run));
+            cases.push(format!("{}\n", run));
+            cases.push(format!("{}a{}", run, q.repeat(3)));
+            cases.push(format!("{}{}", run, if q == "'" { "\"" } else { "'" }));
+        }
+    }
+    let (total, acc) = crate::universe::sweep_list(&cases, &f);
+    rep.absorb("U-long-runs", "runs of 1-9, 125-131, 252-260, 509-516, 767-770, 1023-1025 and 65535-65538 quotes / apostrophes, alone and next to a letter, a backslash, a newline, a second run and the other quote", total, true, t0, acc);
     // vacuity: every style must have been offered at least once
     for style in ["value:literal", "value:ml_literal", "value:basic_pretty", "value:ml_basic_pretty", "key:unquoted", "key:literal", "key:basic_pretty"] {
         if rep.acc.hist.get(style).copied().unwrap_or(0) == 0 {
